@@ -349,9 +349,11 @@ def partialChannelChoi [Add α] [Mul α] [Zero α] [One α] [HasConj α] (rho J 
     (sys n : Nat) (rd cd : Nat → Nat) : Mat α :=
   applyChoi rho (embedChoi J sys n rd cd)
 
-/-- `dim is None`: `np.round(np.sqrt(rho.shape)) * np.ones(2)` is the 1-d array `[√rows, √cols]`, which
-    the next lines duplicate into both rows of `dim` -/
-def defaultDim (rho : Mat α) : List Nat := [Nat.sqrt rho.r, Nat.sqrt rho.c]
+/-- `dim is None`: `np.round(np.sqrt(list(rho.shape))).reshape(-1, 1) * np.ones((1, 2))` is the 2×2 array
+    `[[√rows, √rows], [√cols, √cols]]`: two subsystems with row dimensions `√rows` and column dimensions `√cols`
+    (returned as the pair of its rows) -/
+def defaultDim (rho : Mat α) : List Nat × List Nat :=
+  ([Nat.sqrt rho.r, Nat.sqrt rho.r], [Nat.sqrt rho.c, Nat.sqrt rho.c])
 
 /-! ## `kraus_to_choi` -/
 
